@@ -172,6 +172,7 @@ func callKey(a keyArgs) ([]byte, error) {
 }
 
 func goKey(a keyArgs) string {
+	pendingOp(a.op("key"))
 	return safely(func() string {
 		// keep the arguments intact for the caller: Key gets private copies (purity is C13's business)
 		b := a
